@@ -2,6 +2,7 @@ import St4sd.Model.FsAtomic
 import St4sd.Model.StatusFile
 import St4sd.Model.FsConc
 import St4sd.Lemmas.C14Typed
+import St4sd.Model.C14Listing
 /-!
 Witnesses for C14: the code *before* the proposed repairs violates the full statement.  The harness
 replays the same inputs on the real code (`harness/c14.py`, `CORPUS_HISTORIES` and the traced writers).
@@ -114,5 +115,20 @@ theorem pyEq_skip_stores_different_values :
     runStore (writeSkip pyEq) none [.int 3, .float 7 1, .float 7 1] = some (.float 7 1) := by decide
 
 end Typed
+
+/-! key-output listing: a dosini reader with inline comment prefixes `#` / `;` truncates file names -/
+section Listing
+open St4sd.Listing
+
+/-- `filepath=stages/stage0/hello/summary #1.csv` read with `inline_comment_prefixes=('#', ';')`: the listing names a
+file that was never written; without prefixes (the code) the value is exact. -/
+theorem inline_comment_reader_truncates_path :
+    readLine ['#', ';'] (writeLine "filepath".toList "stages/stage0/hello/summary #1.csv".toList)
+      = some ("filepath".toList, "stages/stage0/hello/summary".toList) ∧
+    readLine ['#', ';'] (writeLine "filename".toList "notes ;draft.txt".toList) = some ("filename".toList, "notes".toList) ∧
+    readLine [] (writeLine "filename".toList "notes ;draft.txt".toList) = some ("filename".toList, "notes ;draft.txt".toList) := by
+  decide
+
+end Listing
 
 end St4sd.C14.Witness
